@@ -84,7 +84,9 @@ func runSelftests(p *propDef, repo string, base []Obligation) *selfResult {
 		}
 	}
 	only := os.Getenv("BIOCHECK_VARIANT")
-	for _, v := range append(append([]variant{}, selftests[p.ID]...), seededVariants(p.ID)...) {
+	all := append(append([]variant{}, selftests[p.ID]...), seededVariants(p.ID)...)
+	all = append(all, benignVariants(p.ID)...)
+	for _, v := range all {
 		if only != "" && !strings.Contains(v.Name, only) {
 			continue
 		}
@@ -177,6 +179,42 @@ func firstLine(s string) string {
 		return s[:i]
 	}
 	return s
+}
+
+// benignVariants loads the independently written behaviour-preserving
+// refactorings recorded under <verif>/benign whose SILENT.json entry lists
+// this property: each must add no violation and leave nothing undecided.
+func benignVariants(prop string) []variant {
+	root := verifRoot
+	b, err := os.ReadFile(filepath.Join(root, "benign", "SILENT.json"))
+	if err != nil {
+		return nil
+	}
+	var sil map[string]struct {
+		Props []string `json:"props"`
+	}
+	if json.Unmarshal(b, &sil) != nil {
+		return nil
+	}
+	var ids []string
+	for id := range sil {
+		ids = append(ids, id)
+	}
+	sort.Strings(ids)
+	var out []variant
+	for _, id := range ids {
+		for _, q := range sil[id].Props {
+			if q != prop {
+				continue
+			}
+			pb, err := os.ReadFile(filepath.Join(root, "benign", id, "patch.diff"))
+			if err != nil {
+				continue
+			}
+			out = append(out, variant{Name: "benign-" + id, Patch: string(pb)})
+		}
+	}
+	return out
 }
 
 // seededVariants loads the independently seeded changes recorded under
